@@ -6,6 +6,7 @@ IMPLEMENTATION's observation). Core Lean only.
 -/
 import SwV.Common.Drv
 import SwV.Model.C18
+import SwV.Model.C18Late
 namespace SwV.Spec.C18Run
 open SwV.Drv SwV.Model.C18
 
@@ -122,8 +123,30 @@ def covOf (s : St) (op : Op) (o : Out) : List String :=
     | _ => []
   [s!"COV {k}.{r}"] ++ extra ++ (if !o.q.isEmpty then ["COV emit.queue"] else []) ++ (if !o.d.isEmpty then ["COV emit.direct"] else [])
 
-def drvStep (judge : Judge) (s : St) (n : Nat) (ln : Line) : St × List String :=
+/-- judge of a rename during which `late` was created: pre-state, src, dst, late, whether the implementation's run
+    carried out the create (token `late=1`), observation -/
+abbrev LateJudge := St → RPath → RPath → RPath → Bool → Obs → List (String × String)
+
+/-- `renamelate <src> <dst> <trig> <late> <tag> <chunks>`: AtomicRenameEntry src → dst; when the store delete of `trig`
+    has been carried out the file `late` (tag, chunks) is inserted into the store, as a second client's create would -/
+def lateStep (lj : LateJudge) (s : St) (n : Nat) (ln : Line) : St × List String :=
+  let a := fun (i : Nat) => ln.args.getD i "0"
+  let src := pathOfTok (a 0)
+  let dst := pathOfTok (a 1)
+  let late := pathOfTok (a 3)
+  match renameLateEntry s src dst (pathOfTok (a 2)) late (entryOfFields "f" (a 4) (a 5) "0" "0") with
+  | ((s', r, q), fired) =>
+    let head := [tokOfRes r, "q=" ++ tokOfChunks q, "d=-", if fired then "late=1" else "late=0"]
+    let model := if r == .diverge then head else head ++ dumpSt s'
+    let obs := parseObs ln.outs
+    let fails := (lj s src dst late (ln.outs.contains "late=1") obs).map fun (c, d) => specfail n c d
+    let dl := diff n ln model
+    let next := if !dl.isEmpty && obs.complete then obs.post else s'
+    (next, dl ++ fails ++ [s!"COV renamelate.{tokOfRes r}"])
+
+def drvStepL (judge : Judge) (lj : LateJudge) (s : St) (n : Nat) (ln : Line) : St × List String :=
   if ln.op == "reset" then ({}, ["COV reset"]) else
+  if ln.op == "renamelate" then lateStep lj s n ln else
   match parseOp ln with
   | none => (s, [s!"DIFF {n} unknown-op {ln.op}"])
   | some op =>
@@ -136,5 +159,8 @@ def drvStep (judge : Judge) (s : St) (n : Nat) (ln : Line) : St × List String :
     -- after a DIFF continue from the IMPLEMENTATION's state, so that one divergence is reported once
     let next := if !dl.isEmpty && obs.complete then obs.post else s'
     (next, dl ++ fails ++ covOf s op o)
+
+/-- the step of the drivers that do not judge the concurrent-create op (C20, C21: model comparison only) -/
+def drvStep (judge : Judge) : St → Nat → Line → St × List String := drvStepL judge (fun _ _ _ _ _ _ => [])
 
 end SwV.Spec.C18Run
